@@ -998,10 +998,10 @@ def gen_profile_frame(rng, stats, big=False):
     return pd.DataFrame(cols)
 
 
-def suite_profiler(rng, n, stats, big_every=25):
+def suite_profiler(rng, n, stats, n_big=1):
     cases = []
-    for k in range(n):
-        df = gen_profile_frame(rng, stats, big=(k % big_every == big_every - 1))
+    for k in range(n + n_big):
+        df = gen_profile_frame(rng, stats, big=(k >= n))
         attrs = None if rng.random() < 0.5 else rng.sample(list(df.columns), rng.randint(1, len(df.columns)))
         use = list(df.columns) if attrs is None else attrs
         # table-level request (order of attributes, argument validation, empty table)
